@@ -69,12 +69,53 @@ func vCount(s []int, x int) int {
 	return c
 }
 
+// vModelPut is the reference model of Put: overwrite in place / append; bidirectional maps first drop both old pairs.
+func vModelPut(keys, vals []int, k, x int, kind VKind) ([]int, []int) {
+	wk, wv := append([]int{}, keys...), append([]int{}, vals...)
+	if kind.Bidi {
+		if i := v.Split(vIdxK(wk, k), -1, len(wk)-1); i >= 0 {
+			wk, wv = vDrop(wk, wv, i)
+		}
+		if i := v.Split(vIdx(wv, x), -1, len(wv)-1); i >= 0 {
+			wk, wv = vDrop(wk, wv, i)
+		}
+		wk, wv = append(wk, k), append(wv, x)
+	} else if i := v.Split(vIdxK(wk, k), -1, len(wk)-1); i >= 0 {
+		wv[i] = x
+		wk[i] = k // the retained representative of equivalent keys is not specified; keys are compared up to equivalence // in place: the key keeps its position (C09)
+	} else {
+		wk, wv = append(wk, k), append(wv, x)
+	}
+	return wk, wv
+}
+
+// vLookup: Get of an arbitrary probe against the model.
+func vLookup(m Map[int, int], wk, wv []int, tag string) {
+	q := v.Int(tag)
+	x, found := m.Get(q)
+	i := vIdxK(wk, q)
+	v.Assert(found == (i >= 0), "C01,C10:lookup-after-found")
+	if i >= 0 {
+		v.Assert(x == wv[v.Split(i, 0, len(wk)-1)], "C01,C10:lookup-after-value")
+	} else {
+		v.Assert(x == 0, "C01:lookup-after-zero")
+	}
+}
+
 // VMapStep: one operation on a map holding exactly the pairs (keys[i], vals[i]) (keys pairwise distinct; values too
 // for bidirectional maps), against the finite-map model of C01 / the one-to-one model of C10 / insertion order of C09.
 func VMapStep(m Map[int, int], keys, vals []int, kind VKind) ([]int, []int) {
 	op := v.CfgOr("op", -1)
 	if op < 0 {
-		op = v.Split(v.IntIn("op", 0, VOpCount-1), 0, VOpCount-1)
+		op = v.IntIn("op", 0, VOpCount-1)
+		if mask := v.CfgOr("ops", 0); mask > 0 { // restrict the symbolic choice to the operations in the bit mask
+			for o := 0; o < VOpCount; o++ {
+				if mask&(1<<o) == 0 {
+					v.Assume(op != o)
+				}
+			}
+		}
+		op = v.Split(op, 0, VOpCount-1)
 	}
 	if op == VOpGetKey && !kind.Bidi {
 		op = VOpObservers
@@ -85,21 +126,7 @@ func VMapStep(m Map[int, int], keys, vals []int, kind VKind) ([]int, []int) {
 	case VOpPut:
 		x := v.Int("val")
 		m.Put(k, x)
-		wk, wv = append([]int{}, keys...), append([]int{}, vals...)
-		if kind.Bidi {
-			if i := v.Split(vIdxK(wk, k), -1, len(wk)-1); i >= 0 {
-				wk, wv = vDrop(wk, wv, i)
-			}
-			if i := v.Split(vIdx(wv, x), -1, len(wv)-1); i >= 0 {
-				wk, wv = vDrop(wk, wv, i)
-			}
-			wk, wv = append(wk, k), append(wv, x)
-		} else if i := v.Split(vIdxK(wk, k), -1, len(wk)-1); i >= 0 {
-			wv[i] = x
-			wk[i] = k // the retained representative of equivalent keys is not specified; keys are compared up to equivalence // in place: the key keeps its position (C09)
-		} else {
-			wk, wv = append(wk, k), append(wv, x)
-		}
+		wk, wv = vModelPut(keys, vals, k, x, kind)
 	case VOpRemove:
 		m.Remove(k)
 		if i := v.Split(vIdxK(keys, k), -1, len(keys)-1); i >= 0 {
@@ -218,6 +245,14 @@ func VMapStep(m Map[int, int], keys, vals []int, kind VKind) ([]int, []int) {
 func VMapHistory(m Map[int, int], kind VKind) {
 	var keys, vals []int
 	D := v.CfgOr("D", 3)
+	// configuration I: the history starts with I Puts of arbitrary pairs, each followed by one arbitrary lookup (so
+	// that read-side caches are exercised) but without the full observation of a step - longer histories at lower cost
+	for i := 0; i < v.CfgOr("I", 0); i++ {
+		k, x := v.Int("pk"), v.Int("px")
+		m.Put(k, x)
+		keys, vals = vModelPut(keys, vals, k, x, kind)
+		vLookup(m, keys, vals, "pq")
+	}
 	for i := 0; i < D; i++ {
 		keys, vals = VMapStep(m, keys, vals, kind)
 	}
